@@ -160,7 +160,7 @@ class Worker:
             # survivor: run the checks on this tree
             ev = tempfile.mkdtemp(prefix='mutev-')
             env = dict(os.environ, KV_REPO=self.dir, KV_EVIDENCE=ev, KV_NO_SELFTEST='1', KV_KEEP_FACTS='1',
-                       KV_TARGET=os.path.join(VERIF, '.cache', 'target-scratch-%d' % (30 + self.n)))
+                       KV_TARGET=os.path.join(VERIF, '.cache', 'target-scratch-%d' % self.n))
             caught = {}
             for p in PROPS:
                 r = subprocess.run([os.path.join(VERIF, 'kv'), 'check', p], env=env, stdout=subprocess.PIPE, stderr=subprocess.STDOUT, text=True)
